@@ -20,6 +20,7 @@ type Pipeline struct {
 	Dims    []string // the tag names the grouping looks at ("*" = all tags of the point)
 	Body    string   // chain after from()
 	Alert   bool     // needs the alert service
+	SleepMs int      // virtual time to let pass after every point (idle timers)
 }
 
 var pipelines = []Pipeline{
@@ -54,6 +55,10 @@ var pipelines = []Pipeline{
 	{Name: "byname-count", GroupBy: "'h'", ByName: true, Dims: []string{"h"}, Body: "|eval(lambda: count()).as('c')"},
 	{Name: "byname-only-count", GroupBy: "", ByName: true, Dims: nil, Body: "|eval(lambda: count()).as('c')"},
 	// (the final grouping decides which sources may influence each other)
+	// every group goes idle (and is deleted) between any two points: each point must find fresh state, whichever
+	// group the neighbouring points belong to
+	{Name: "barrier-idle-delete", GroupBy: "'h'", Dims: []string{"h"}, Body: "|barrier().idle(2s).delete(TRUE)|eval(lambda: count()).as('c')", SleepMs: 3000},
+	{Name: "barrier-idle-delete-stateCount", GroupBy: "'h'", Dims: []string{"h"}, Body: "|barrier().idle(2s).delete(TRUE)|stateCount(lambda: \"v\" >= 0)", SleepMs: 3000},
 	{Name: "regroup", GroupBy: "'h', 'i'", Dims: []string{"h"}, Body: "|eval(lambda: count()).as('c')|groupBy('h')|eval(lambda: count()).as('d')"},
 }
 
@@ -76,6 +81,7 @@ type G struct {
 	M    string
 	Tags map[string]string
 	Vals []int64
+	Bare bool // the points carry exactly Tags (no per-point tag p)
 }
 
 type GroupSet struct {
@@ -85,40 +91,45 @@ type GroupSet struct {
 
 var groupSets = []GroupSet{
 	{"plain", []G{
-		{"m", map[string]string{"h": "a"}, []int64{1, 2, 3}},
-		{"m", map[string]string{"h": "b"}, []int64{3, 0, 2}},
+		{"m", map[string]string{"h": "a"}, []int64{1, 2, 3}, false},
+		{"m", map[string]string{"h": "b"}, []int64{3, 0, 2}, false},
 	}},
 	{"separators-in-values", []G{
-		{"m", map[string]string{"h": "a", "i": "b,i=c"}, []int64{1, 2, 3}},
-		{"m", map[string]string{"h": "a,i=b", "i": "c"}, []int64{3, 0, 2}},
+		{"m", map[string]string{"h": "a", "i": "b,i=c"}, []int64{1, 2, 3}, false},
+		{"m", map[string]string{"h": "a,i=b", "i": "c"}, []int64{3, 0, 2}, false},
 	}},
 	{"comma-equals-space", []G{
-		{"m", map[string]string{"h": "a,b"}, []int64{1, 2, 3}},
-		{"m", map[string]string{"h": "a=b"}, []int64{3, 0, 2}},
-		{"m", map[string]string{"h": "a b"}, []int64{2, 2, 0}},
+		{"m", map[string]string{"h": "a,b"}, []int64{1, 2, 3}, false},
+		{"m", map[string]string{"h": "a=b"}, []int64{3, 0, 2}, false},
+		{"m", map[string]string{"h": "a b"}, []int64{2, 2, 0}, false},
 	}},
 	{"missing-vs-other-tag", []G{
-		{"m", map[string]string{"i": "x"}, []int64{1, 2, 3}},
-		{"m", map[string]string{"h": "", "i": "y"}, []int64{3, 0, 2}},
-		{"m", map[string]string{"h": "a"}, []int64{2, 2, 0}},
+		{"m", map[string]string{"i": "x"}, []int64{1, 2, 3}, false},
+		{"m", map[string]string{"h": "", "i": "y"}, []int64{3, 0, 2}, false},
+		{"m", map[string]string{"h": "a"}, []int64{2, 2, 0}, false},
 	}},
 	{"star-collision", []G{
-		{"m", map[string]string{"h": "a,i=b"}, []int64{1, 2, 3}},
-		{"m", map[string]string{"h": "a", "i": "b"}, []int64{3, 0, 2}},
+		{"m", map[string]string{"h": "a,i=b"}, []int64{1, 2, 3}, false},
+		{"m", map[string]string{"h": "a", "i": "b"}, []int64{3, 0, 2}, false},
 	}},
 	{"two-measurements", []G{
-		{"m", map[string]string{"h": "a"}, []int64{1, 2, 3}},
-		{"n", map[string]string{"h": "a"}, []int64{3, 0, 2}},
+		{"m", map[string]string{"h": "a"}, []int64{1, 2, 3}, false},
+		{"n", map[string]string{"h": "a"}, []int64{3, 0, 2}, false},
 	}},
 	{"same-group-different-extra-tag", []G{
-		{"m", map[string]string{"h": "a", "z": "1"}, []int64{1, 2, 3}},
-		{"m", map[string]string{"h": "a", "z": "2"}, []int64{3, 0, 2}},
-		{"m", map[string]string{"h": "b", "z": "1"}, []int64{2, 2, 0}},
+		{"m", map[string]string{"h": "a", "z": "1"}, []int64{1, 2, 3}, false},
+		{"m", map[string]string{"h": "a", "z": "2"}, []int64{3, 0, 2}, false},
+		{"m", map[string]string{"h": "b", "z": "1"}, []int64{2, 2, 0}, false},
+	}},
+	{"no-tags-at-all", []G{
+		{M: "m", Tags: map[string]string{}, Vals: []int64{1, 2, 3}, Bare: true},
+		{M: "m", Tags: map[string]string{"i": "x"}, Vals: []int64{3, 0, 2}, Bare: true},
+		{M: "m", Tags: map[string]string{"h": "a"}, Vals: []int64{2, 2, 0}, Bare: true},
 	}},
 	{"three-plain", []G{
-		{"m", map[string]string{"h": "a"}, []int64{1, 2}},
-		{"m", map[string]string{"h": "b"}, []int64{3, 0}},
-		{"m", map[string]string{"h": "c"}, []int64{2, 2}},
+		{"m", map[string]string{"h": "a"}, []int64{1, 2}, false},
+		{"m", map[string]string{"h": "b"}, []int64{3, 0}, false},
+		{"m", map[string]string{"h": "c"}, []int64{2, 2}, false},
 	}},
 }
 
@@ -197,6 +208,9 @@ func run(t *testing.T, c Case, mask map[int]bool) (o out) {
 			}
 			g := gs[gi]
 			tags := map[string]string{"p": fmt.Sprintf("p%d", j%2)}
+			if g.Bare {
+				tags = map[string]string{}
+			}
 			for k, v := range g.Tags {
 				tags[k] = v
 			}
@@ -207,6 +221,10 @@ func run(t *testing.T, c Case, mask map[int]bool) (o out) {
 				o.err = err.Error()
 			}
 			kit.Wait()
+			if p.SleepMs > 0 {
+				time.Sleep(time.Duration(p.SleepMs) * time.Millisecond)
+				kit.Wait()
+			}
 		}
 		env.TM.StopTask("t")
 		kit.Wait()
@@ -327,6 +345,14 @@ func check(t *testing.T, c Case, r *rep.R, solo map[soloKey]out) []problem {
 		if so.pan != "" || so.err != "" {
 			return append(ps, problem{"solo-run-failed:" + cls, so.pan + so.err})
 		}
+		if len(so.byGroup) > 1 && !(len(p.Dims) == 1 && p.Dims[0] == "*") {
+			var ids []string
+			for og := range so.byGroup {
+				ids = append(ids, fmt.Sprintf("%q", og))
+			}
+			sort.Strings(ids)
+			ps = append(ps, problem{"one-group-split:" + strings.NewReplacer("'", "", ", ", "+").Replace(p.GroupBy) + ":" + set.Name, fmt.Sprintf("%s: the sources %v agree on the measurement (if grouped by it) and on every group-by tag value {%s}, yet their output carries the group ids %v", p.script(), groups[gk], gk, ids)})
+		}
 		for og, items := range so.byGroup {
 			if prev, dup := owner[og]; dup {
 				ps = append(ps, problem{"group-id-collision:" + strings.NewReplacer("'", "", ", ", "+").Replace(p.GroupBy) + ":" + set.Name, fmt.Sprintf("%s: input groups {%s} and {%s} are different groups but both produce output group id %q", p.script(), prev, gk, og)})
@@ -394,10 +420,10 @@ func extendSets() {
 func TestCheck(t *testing.T) {
 	defer kit.CleanupTmp()
 	r := rep.New("C06", "model_checking",
-		"group identity and isolation on real stream tasks: 31 pipelines built from grouping-aware nodes (windows by time and count, where/eval with stateful lambda functions sigma/count/spread, stateCount, stateDuration, derivative, changeDetect, sample, difference, cumulativeSum, elapsed, movingAverage, stream aggregations, top, flatten, combine, alert with stateChangesOnly and with flapping, groupBy on one/two tags, *, with and without groupByMeasurement, re-grouping) x 8 sets of 2-3 sources (plain values; values containing ',', '=', ' '; values built to collide under naive serialisation; missing vs empty tag; two measurements; same group with different non-group tags) x ALL interleavings of the sources' point sequences (same time stamps in every source), one point at a time to quiescence. Oracle (differential, no expected values): the output of the full run, split by output group id, equals the output of runs fed only one input group (sources that agree on measurement-if-grouped-by-it and on every group-by tag value), and two different input groups never share an output group id. states = (pipeline, source set) pairs, transitions = points fed")
+		"group identity and isolation on real stream tasks: 33 pipelines built from grouping-aware nodes (windows by time and count, where/eval with stateful lambda functions sigma/count/spread, stateCount, stateDuration, derivative, changeDetect, sample, difference, cumulativeSum, elapsed, movingAverage, stream aggregations, top, flatten, combine, alert with stateChangesOnly and with flapping, groupBy on one/two tags, *, with and without groupByMeasurement, re-grouping, barrier().idle().delete() with every group idling out between points) x 9 sets of 2-3 sources (plain values; values containing ',', '=', ' '; values built to collide under naive serialisation; missing vs empty tag; points without any tag; two measurements; same group with different non-group tags) x ALL interleavings of the sources' point sequences (same time stamps in every source), one point at a time to quiescence. Oracle (differential, no expected values): the output of the full run, split by output group id, equals the output of runs fed only one input group (sources that agree on measurement-if-grouped-by-it and on every group-by tag value), two different input groups never share an output group id, and one input group never yields two output group ids. states = (pipeline, source set) pairs, transitions = points fed")
 	defer r.Write()
 	r.Assumption("a missing group-by tag and an empty tag value denote the same value (line protocol cannot carry empty tag values)")
-	r.Assumption("nodes that are global by design (barrier, deadman, stats) are not in the pipelines")
+	r.Assumption("nodes that are global by design (deadman, stats, barrier by period) are not in the pipelines; barrier by idle time is")
 
 	if rep.ReplayPath() != "" {
 		var c Case
